@@ -7,9 +7,10 @@
 (* next to the record store of a node that collects untraceable blocks     *)
 (* (RemoveUntraceableBlocks) as ConflictRecImpl maintains it.              *)
 (* Actions:                                                                *)
-(*   AddBlock(b) / ProposeAndAccept(b)  a block the node accepts (every    *)
+(*   AddBlock(b) / ProposeAndAccept     a block the node accepts (every    *)
 (*              block a pool can yield is one of them) is stored           *)
 (*   GC         DeleteBlock of the oldest stored block once untraceable    *)
+(*              (GCLag blocks later), in the reading GCMode of the code    *)
 (*   Restart    the in-memory GC cursor is lost, the store is not          *)
 (*   Admit(c)   read-only: checked as INVARIANTS over every candidate c    *)
 (*              that can exist next to the chain (a candidate whose hash   *)
